@@ -54,3 +54,66 @@ with open(os.path.join(HERE, "spec", "anchors", "hash_anchors.ndjson"), "w") as 
     for r in recs:
         f.write(json.dumps(r, separators=(",", ":")) + "\n")
 print("hash anchors:", len(recs))
+
+# ---------------------------------------------------------------- AEAD and stream anchors through OpenSSL's libcrypto (ctypes)
+import ctypes, ctypes.util
+lc = ctypes.CDLL(ctypes.util.find_library("crypto"))
+lc.EVP_CIPHER_CTX_new.restype = ctypes.c_void_p
+lc.EVP_CIPHER_fetch.restype = ctypes.c_void_p
+lc.EVP_CIPHER_fetch.argtypes = [ctypes.c_void_p, ctypes.c_char_p, ctypes.c_char_p]
+def evp_aead(name, key, iv, ad, msg, taglen=16):
+    ctx = ctypes.c_void_p(lc.EVP_CIPHER_CTX_new())
+    ciph = ctypes.c_void_p(lc.EVP_CIPHER_fetch(None, name, None))
+    assert ciph.value
+    assert lc.EVP_EncryptInit_ex(ctx, ciph, None, None, None) == 1
+    assert lc.EVP_CIPHER_CTX_ctrl(ctx, 0x9, len(iv), None) == 1            # EVP_CTRL_AEAD_SET_IVLEN
+    assert lc.EVP_EncryptInit_ex(ctx, None, None, key, iv) == 1
+    outl = ctypes.c_int(0)
+    if ad:
+        assert lc.EVP_EncryptUpdate(ctx, None, ctypes.byref(outl), ad, len(ad)) == 1
+    out = ctypes.create_string_buffer(len(msg) + 32)
+    n = 0
+    if msg:
+        assert lc.EVP_EncryptUpdate(ctx, out, ctypes.byref(outl), msg, len(msg)) == 1
+        n = outl.value
+    assert lc.EVP_EncryptFinal_ex(ctx, ctypes.byref(out, n), ctypes.byref(outl)) == 1
+    n += outl.value
+    tag = ctypes.create_string_buffer(taglen)
+    assert lc.EVP_CIPHER_CTX_ctrl(ctx, 0x10, taglen, tag) == 1             # EVP_CTRL_AEAD_GET_TAG
+    lc.EVP_CIPHER_CTX_free(ctx)
+    return out.raw[:n], tag.raw
+def evp_stream(name, key, iv, n):
+    ctx = ctypes.c_void_p(lc.EVP_CIPHER_CTX_new())
+    ciph = ctypes.c_void_p(lc.EVP_CIPHER_fetch(None, name, None))
+    assert lc.EVP_EncryptInit_ex(ctx, ciph, None, key, iv) == 1
+    out = ctypes.create_string_buffer(n + 64); outl = ctypes.c_int(0)
+    assert lc.EVP_EncryptUpdate(ctx, out, ctypes.byref(outl), bytes(n), n) == 1
+    lc.EVP_CIPHER_CTX_free(ctx)
+    return out.raw[:n]
+arecs = []
+for ml, al in [(0, 0), (1, 0), (0, 5), (16, 16), (17, 13), (63, 1), (64, 0), (65, 33), (100, 12), (128, 31), (129, 64), (255, 7), (300, 100)]:
+    k, n12, ad, m = rb(32), rb(12), rb(al), rb(ml)
+    for alg, name in (("chacha20poly1305_ietf", b"ChaCha20-Poly1305"), ("aes256gcm", b"AES-256-GCM")):
+        c, t = evp_aead(name, k, n12, ad, m)
+        arecs.append({"op": "aead", "alg": alg, "k": L(k), "n": L(n12), "ad": L(ad), "m": L(m), "nforms": 2, "dec_ok": True, "res": [{"c": L(c), "t": L(t)}]})
+with open(os.path.join(HERE, "spec", "anchors", "aead_anchors.ndjson"), "w") as f:
+    for r in arecs:
+        f.write(json.dumps(r, separators=(",", ":")) + "\n")
+print("aead anchors:", len(arecs))
+# ChaCha20 (OpenSSL: 16-byte IV = 32-bit little-endian counter || 96-bit nonce) as stream-group records
+srecs = []
+for ic in (0, 1, 0xfffffff0):
+    k, n12 = rb(32), rb(12)
+    ks = evp_stream(b"ChaCha20", k, ic.to_bytes(4, "little") + n12, 700)
+    sums, s1, s2 = [], 0, 0
+    for i in range(701):
+        sums.append([i, s1, s2])
+        if i < 700:
+            s1 += ks[i]; s2 += ((i % 251) + 1) * ks[i]
+    bl = [b for b in (0, 1, 63, 64, 65, 127, 128, 129, 191, 192, 255, 256, 257, 319, 320, 383, 384, 447, 448, 511, 512, 513, 575, 576, 577, 639, 640, 700)]
+    srecs.append({"op": "stream", "v": "chacha20_ietf", "form": 0, "k": L(k), "n": L(n12), "ic": L(ic.to_bytes(8, "little")), "maxlen": 700,
+                  "sums": sums, "full": [L(ks[:b]) for b in bl], "ret0": True, "untouched": True})
+with open(os.path.join(HERE, "spec", "anchors", "stream_anchors.ndjson"), "w") as f:
+    for r in srecs:
+        f.write(json.dumps(r, separators=(",", ":")) + "\n")
+print("stream anchors:", len(srecs))
